@@ -12,31 +12,31 @@ TECH = "explicit TLA+ specification checked by TLC + conformance (spec->impl rep
 
 CHECKS = {
  "C01": dict(engine="stream", design_ref="DESIGN.md 6 C01",
-   text="TLC exhaustively checks the Layer-B models EncLoop/DecLoop (every length up to the bound, every read partition, every partial-write split) against the Layer-A invariants LegalOutput/MustAccept/AcceptMeansComplete; every enumerated behaviour is replayed as an encrypt-then-decrypt round trip on the real chunk loops (same small chunk size) and, scaled, on key_encrypt/key_decrypt, plus production-size round trips with library-drawn randomness; each recorded I/O trace is validated event by event against the trace specification Trace_Stream (encryptor output must equal the specification's record terms for the chunking it chose; decryptor must return the plaintext and the sender). Exhaustive in the small scope, sampled at 64 KiB.",
+   text="TLC exhaustively checks the Layer-B models EncLoop/DecLoop (every length up to the bound, every read partition, every partial-write split) against the Layer-A invariants LegalOutput/MustAccept/AcceptMeansComplete; every enumerated behaviour is replayed as an encrypt-then-decrypt round trip on the real chunk loops (same small chunk size) and, scaled, on key_encrypt/key_decrypt, plus production-size round trips with library-drawn randomness; each recorded I/O trace is validated event by event against the trace specification Trace_Stream (encryptor output must equal the specification's record terms for the chunking it chose; decryptor must return the plaintext and the sender). Exhaustive in the small scope, sampled at 64 KiB. Round trips through the tool itself (kestrel encrypt | decrypt via files and via pipes, onto fresh output paths and onto paths holding a longer file, plaintext sizes 0, 1, k*65536-1, k*65536, k*65536+1) are validated by Trace_Cli!RtChecks, the produced file being opened by the specification-directed reader.",
    note="Assumes the symbolic AEAD/DH algebra of Terms.tla (exercised against the real primitives by C19) and that the harness's scripted Read/Write objects are the only I/O the functions perform. Small-scope exhaustiveness is for chunk sizes 1..3 and lengths up to 3*CS+1; beyond that sampling."),
  "C02": dict(engine="stream", design_ref="DESIGN.md 6 C02",
-   text="As C01 in password mode (hooked loops with the password AAD prefix, pass_encrypt/pass_decrypt), with every third round trip decrypted under a different password (near misses included) where the contract is MUST_REJECT with nothing released (D1: no write beyond the authenticated prefix, which is empty). DecLoop is model-checked with the adversary action 'header/key does not authenticate' and the invariant WrongKeyReleasesNothing.",
+   text="As C01 in password mode (hooked loops with the password AAD prefix, pass_encrypt/pass_decrypt), with every third round trip decrypted under a different password (near misses included) where the contract is MUST_REJECT with nothing released (D1: no write beyond the authenticated prefix, which is empty). DecLoop is model-checked with the adversary action 'header/key does not authenticate' and the invariant WrongKeyReleasesNothing. The same round trips through the tool in password mode (Trace_Cli!RtChecks).",
    note="Password inequality is byte inequality; scrypt is interpreted by the working tree's exported scrypt (its RFC conformance is C18's matter)."),
  "C03": dict(engine="stream", design_ref="DESIGN.md 6 C03",
    text="TLC explores every abstract file reachable within k adversary edits from two authentic files (13 edit actions incl. cross-file splices, header swaps, truncation in every field class, appends) and checks AcceptMeansComplete / ReleasedIsAuthenticPrefix on the decryptor model; each explored file is concretised from specification-built records and given to the real decryptor (hooked loop, key_decrypt, pass_decrypt), and the verdict is compared with the contract's three-valued class computed in TLA+ from the abstract file (AFile!Class) during trace validation. Every single-bit flip and every proper prefix of complete files is added.",
    note="Soundness of 'splice fails' rests on the AEAD assumption (C19) and on distinct files having distinct keys (C07). Edits are bounded (2 quick, 3 thorough); bit positions within large bodies are sampled."),
  "C04": dict(engine="stream", design_ref="DESIGN.md 6 C04",
-   text="The invariant ReleasedIsAuthenticPrefix is model-checked in every state of DecLoop under every schedule and single fault; the real decryptor's write calls (bytes, offset, ciphertext consumed so far) are recorded for authentic and adversarial files under enumerated schedules and fault points and validated against D1 (no write beyond the plaintext of records authentic in position and completely consumed; bytes equal the authentic plaintext), D2 (success only after a final record and end of data), D5 (whole chunks). The adversary includes forged records. Thorough tier: the same predicates on the system-call sequence of the real binary (strace converted to the same event format), and an Apalache-discharged inductive invariant of the integer projection DecLoopInd for any number of chunks.",
+   text="The invariant ReleasedIsAuthenticPrefix is model-checked in every state of DecLoop under every schedule and single fault; the real decryptor's write calls (bytes, offset, ciphertext consumed so far) are recorded for authentic and adversarial files under enumerated schedules and fault points and validated against D1 (no write beyond the plaintext of records authentic in position and completely consumed; bytes equal the authentic plaintext), D2 (success only after a final record and end of data), D5 (whole chunks). The adversary includes forged records. Thorough tier: the same predicates on the system-call sequence of the real binary (strace converted to the same event format), and an Apalache-discharged inductive invariant of the integer projection DecLoopInd for any number of chunks. Every tier: TLC checks that each step of DecLoop is a step of DecLoopInd (action property RefinesDecLoopInd).",
    note="'No byte before the chunk verifies' is observed at the Write boundary: no byte of a chunk that does not verify, and none before its tag has been read."),
  "C10": dict(engine="stream", design_ref="DESIGN.md 6 C10",
    text="FaultSurfaces is model-checked on EncLoop/DecLoop for every schedule and every position of a fault of each kind; every enumerated (schedule, fault position, kind) is replayed through scripted Read/Write objects on the hooked loops and on the four public functions, and the traces are validated against E2/E3/D3/D4: the error names the failing side, success after a fault only for a retried Interrupted, accepted bytes are a prefix of the same implementation's fault-free run, never a panic or a spin.",
    note="One fault per run in the quick tier (two in the model check of the thorough tier). Faults are injected only at the Read/Write boundary."),
  "C11": dict(engine="stream", design_ref="DESIGN.md 6 C11, 7",
-   text="The Lag invariant (a chunk is out before more than two further chunks are in) is model-checked on both loops; recorded traces carry per event the peak live heap of the code under test and the consumed/covered byte counts and are validated against E4/E5/D7/D8 on inputs from 0 B to tens of MiB (thorough: 1 GB) that are never held in memory. Thorough tier: Lag for any number of chunks by Apalache (EncLoopInd, refinement-linked to EncLoop), and peak RSS of the real binary on a 512 MiB file vs a 1 MiB file.",
+   text="The Lag invariant (a chunk is out before more than two further chunks are in) is model-checked on both loops; recorded traces carry per event the peak live heap of the code under test and the consumed/covered byte counts and are validated against E4/E5/D7/D8 on inputs from 0 B to tens of MiB (thorough: 1 GB) that are never held in memory. Every tier: TLC checks that each step of EncLoop is a step of the integer projection EncLoopInd (RefinesEncLoopInd). Thorough tier: Lag for any number of chunks by Apalache on EncLoopInd, and peak RSS of the real binary on a 512 MiB file vs a 1 MiB file.",
    note="Peak memory is a monitored field of the trace with a generous constant bound (8*CS + 1 MiB, + 34 MiB while scrypt runs): TLC does not derive memory use from the model. Only heap allocations are observed."),
  "C05": dict(engine="noise", design_ref="DESIGN.md 6 C05",
-   text="TLC decides all 4608 combinations of {private key sealing, public key claimed incl. low-order, recipient addressed incl. low-order, ephemeral used / claimed incl. another message's and low-order, decrypting key, recipient_public argument, field spliced from another authentic message} on the token-level Noise X model over symbolic terms (NoiseAdv.tla) against OnlyAddressed / SenderAuthentic / NoNullKey / RespectsClass; every combination is built with the real key_encrypt and with the specification's terms, fed to the real key_decrypt, and the outcome validated against the declarative classification C05Contract by TLC (Trace_Noise); all 14 concrete low-order / non-canonical encodings are used.",
+   text="TLC decides all 4608 combinations of {private key sealing, public key claimed incl. low-order, recipient addressed incl. low-order, ephemeral used / claimed incl. another message's and low-order, decrypting key, recipient_public argument, field spliced from another authentic message} on the token-level Noise X model over symbolic terms (NoiseAdv.tla) against OnlyAddressed / SenderAuthentic / NoNullKey / RespectsClass; every combination is built with the real key_encrypt and with the specification's terms, fed to the real key_decrypt, and the outcome validated against the declarative classification C05Contract by TLC (Trace_Noise); all 14 concrete low-order / non-canonical encodings are used. At the tool: kestrel decrypt with keyrings of 400+ entries in which the sender's entry is first, last or absent; the reported name or 'Unknown key' encoding must be the authenticated key's (Trace_Cli).",
    note="Symbolic (Dolev-Yao) algebra: DH commutes, low-order points give the zero secret, hashes/KDFs/AEAD are collision free. The CLI clause (name reported) is checked under C12."),
  "C06": dict(engine="noise", design_ref="DESIGN.md 6 C06",
    text="The file format exists only as TLA+ terms (WireFormat/NoiseX); a small evaluator interprets the primitive symbols with the repository's exported functions. Encoder: for TLC-enumerated read partitions and injected randomness the output of key_encrypt/pass_encrypt/the chunk loop equals the evaluated terms byte for byte (also for mismatched key pairs and noise_encrypt's handshake hash). Decoder: every legal chunking enumerated by TLC (Chunkings.tla) and odd production-size chunkings, built from the terms, decrypt to plaintext and sender. Frozen: /verif/golden (written once by the pinned tree) and the repository's golden files keep decrypting and parse under the terms. Counter nonces over the 64-bit range through the hook.",
    note="A change inside a primitive that is consistent on both sides is visible only through the frozen corpus (and C18/C19). 'Earlier 1.x releases' are represented by the repository's own golden files only; no other old files exist in the sandbox."),
  "C07": dict(engine="noise", design_ref="DESIGN.md 6 C07",
-   text="NonceOnce/NonceIsIndex are model-checked on EncLoop for every schedule; Fresh.tla enumerates every history of n operations (key encryption via library and CLI, password encryption, key generation, password change) with identical inputs; each is executed and every value the code drew is recovered by specification-directed opening and every AEAD seal logged with its key and nonce; TLC validates no value drawn twice, no (key, nonce) reused, chunk i at nonce i (Trace_Fresh). Thorough tier: NonceIsIndex for any chunk size and any number of chunks as an inductive invariant discharged by Apalache on the integer projection EncLoopInd, linked to EncLoop by the TLC-checked refinement invariant ProjIndInv.",
+   text="NonceOnce/NonceIsIndex are model-checked on EncLoop for every schedule; Fresh.tla enumerates every history of n operations (key encryption via library and CLI, password encryption, key generation, password change) with identical inputs; each is executed and every value the code drew is recovered by specification-directed opening and every AEAD seal logged with its key and nonce; TLC validates no value drawn twice, no (key, nonce) reused, chunk i at nonce i (Trace_Fresh). Thorough tier: NonceIsIndex for any chunk size and any number of chunks as an inductive invariant discharged by Apalache on the integer projection EncLoopInd, linked to EncLoop by the TLC-checked step refinement RefinesEncLoopInd (every tier).",
    note="Freshness is judged by inequality of recovered 32-byte values within a history (2^-256 false-negative chance per pair); it does not assess the entropy source itself."),
  "C08": dict(engine="noise", design_ref="DESIGN.md 6 C08",
    text="NoIdentityInClear / ClearIndependentOfIdentity are checked by TLC on all NoiseAdv scenarios and the size formula on every EncLoop schedule; real outputs of library and CLI for pairs of encryptions differing only in identities are compared on the cleartext positions, against 132|36 + 32*records + plaintext, and searched for every encoding of both public keys and of long random keyring names (Trace_Noise, event 'clear').",
@@ -60,14 +60,14 @@ CHECKS = {
    text="KeyLife.tla enumerates histories of change-pass / extract-pub / use over four passwords (IdentityKept, SaltsFresh); each is run through the CLI; after every step the newest string is unlocked by the specification's LockedKey term under every password used so far (original key under the newest only, salt never seen before), extract-pub is compared with EncodedPub(X25519(sk)) and the PublicKey line of generation, and all output is searched for the private key (Trace_Cli, event 'life').",
    note="Histories of 3 operations (40 sampled in quick, all 216+ in thorough) plus one long history; passwords via environment."),
  "C17": dict(engine="keyring", design_ref="DESIGN.md 6 C17",
-   text="Keyring.tla transcribes parse_config/add_key line by line and is checked by TLC against the declarative contract KeyringContract for every token sequence up to n lines that is not already refused on a prefix; each sequence is rendered in several whitespace / line-ending styles and given to the tree's Keyring::new; verdict (three-valued), entries in order and look-ups are validated by TLC (Trace_Keyring); encoded public keys: every single-character corruption and wrong checksums must be unusable.",
+   text="Keyring.tla transcribes parse_config/add_key line by line and is checked by TLC against the declarative contract KeyringContract for every token sequence up to n lines that is not already refused on a prefix; each sequence is rendered in several whitespace / line-ending styles and given to the tree's Keyring::new; verdict (three-valued), entries in order and look-ups are validated by TLC (Trace_Keyring); encoded public keys: every single-character corruption and wrong checksums must be unusable. Large keyrings in the tool's own layout (1..400 entries of random keys): every look-up by name and by key returns the entry written, keys not written are not found (krbig events).",
    note="Token alphabet of 17 line classes; names/keys from small value sets incl. 128/129-byte names and an interior tab (the defect D3, fixed)."),
  "C18": dict(engine="prims", design_ref="DESIGN.md 6 C18, 7",
    text="Ffi.tla states the frame condition of the exported C function on an abstract caller memory (guards, inputs, exactly dkLen bytes, value = SCRYPT of the arguments in order) and enumerates 5040 call shapes; each (sampled in quick) is made through the working tree's cdylib with guard zones and compared with the library function; the laws the specification assumes of SCRYPT (deterministic, sensitive to every argument, prefix property) are checked on the same grid. The clause 'the in-repository scrypt equals RFC 7914' is NOT decidable by TLC: it is covered only by a supplementary differential comparison with OpenSSL's scrypt (hashlib) on a parameter grid, reported as such.",
    note="Trusted base for the RFC clause: OpenSSL 3.0 scrypt. TLC contributes the enumeration of call shapes, the frame condition and the laws; it cannot evaluate Salsa20/8 (32-bit integers, no bit operations at scale).",
    technique="TLA+ frame model + TLC-enumerated call shapes replayed through the C ABI; RFC equality by differential comparison (supplementary)"),
  "C19": dict(engine="prims", design_ref="DESIGN.md 6 C19, 7",
-   text="Rfc.tla holds (a) the case analysis of the axioms of the symbolic algebra (AEAD open under every kind of change x length classes; X25519 scalar x point classes incl. 14 low-order / non-canonical encodings) with the symbolic verdict, and (b) HMAC (RFC 2104) over SHA256 and HKDF (RFC 5869) over HMAC as terms; TLC enumerates the cases, the driver evaluates each on the exported functions (axioms) resp. evaluates the structural term with the exported inner primitive and compares with the exported outer one; the counter-nonce layout is compared through the hook for counters over the 64-bit range. Leaf primitives vs their RFCs are outside TLC; a supplementary comparison with hashlib and RFC 7748 / 8439 vectors is included and labelled as such.",
+   text="Rfc.tla holds (a) the case analysis of the axioms of the symbolic algebra (AEAD open under every kind of change x length classes; X25519 scalar x point classes incl. 14 low-order / non-canonical encodings) with the symbolic verdict, and (b) HMAC (RFC 2104) over SHA256 and HKDF (RFC 5869) over HMAC as terms; TLC enumerates the cases, the driver evaluates each on the exported functions (axioms) resp. evaluates the structural term with the exported inner primitive and compares with the exported outer one; the counter-nonce layout is compared through the hook for counters over the 64-bit range. Leaf primitives vs their RFCs are outside TLC; a supplementary comparison with hashlib and RFC 7748 / 8439 vectors is included and labelled as such. The DH case analysis includes RFC 7748's treatment of non-canonical inputs: DH(k, p+j) = DH(k, j) for j = 2..18 and masking of the top bit.",
    note="The leaves (SHA-256 compression, ChaCha20, Poly1305, X25519 ladder) are orion code; their RFC conformance is only sampled by the supplementary vectors.",
    technique="TLA+ axioms/structural terms + TLC case enumeration replayed on the exported primitives; leaf RFC equality by reference vectors (supplementary)"),
  "C20": dict(engine="prims", design_ref="DESIGN.md 6 C20, 7",
